@@ -529,7 +529,9 @@ class _parser:
 
         if self.month and not self.year:
             try:
-                if self.now < dateobj:
+                # compare the date the result will carry once the day
+                # preference has been applied, not the reference day
+                if self.now < self._correct_for_day(dateobj):
                     if self.settings.PREFER_DATES_FROM == "past":
                         dateobj = dateobj.replace(year=dateobj.year - 1)
                 else:
